@@ -50,6 +50,19 @@ def hostile(n: str, nq: bool = False) -> str:
 TRANS_NQ = {'<': '=', '>': '?', '&': '%'}
 
 
+# inside explicit link markup (URL of a hyperlink, alt text of an image) the canary lands in an *attribute value* the
+# translator writes: only the quote characters can do harm there ('<' '>' delimit the markup itself)
+HOSTILE_AQ = 'zq{n}"onzq{n}="zq{n}\'zq{n}'
+
+
+def hostile_aq(n: str, _nq: bool = False) -> str:
+    return HOSTILE_AQ.replace('{n}', n)
+
+
+def control_aq(n: str, _nq: bool = False) -> str:
+    return hostile_aq(n).replace('"', '!').replace("'", '$')
+
+
 def control(n: str, nq: bool = False) -> str:
     return ''.join((TRANS_NQ if nq else TRANS).get(c, c) for c in hostile(n, nq))
 
@@ -62,16 +75,16 @@ def _lit(s: str) -> str:
 FIELDS = {
     'epytext': dict(param='@param a: pa @@CAN17@@', typ='@type a: C{{@@CNQ18@@}}', badparam='@param @@CAN19@@: unknown param',
                     rais='@raise @@CAN20@@: exc @@CAN35@@', ret='@return: r @@CAN21@@', see='@see: @@CAN22@@', unk='@unknownfield @@CAN23@@: x',
-                    ivar='@ivar iv: d @@CAN26@@', cvar='@cvar @@CAN27@@: bad name', rtype='@rtype: @@CNQ32@@', inline='C{{@@CAN36@@}} B{{@@CAN37@@}}'),
+                    ivar='@ivar iv: d @@CAN26@@', cvar='@cvar @@CAN27@@: bad name', rtype='@rtype: @@CNQ32@@', inline='C{{@@CAN36@@}} B{{@@CAN37@@}} U{{label<http://example.com/@@CAQ70@@>}} U{{http://example.com/@@CAQ71@@}}'),
     'restructuredtext': dict(param=':param a: pa @@CAN17@@', typ=':type a: ``@@CNQ18@@``', badparam=':param @@CAN19@@: unknown param',
                              rais=':raise @@CAN20@@: exc @@CAN35@@', ret=':return: r @@CAN21@@', see=':see: @@CAN22@@', unk=':unknownfield @@CAN23@@: x',
-                             ivar=':ivar iv: d @@CAN26@@', cvar=':cvar @@CAN27@@: bad name', rtype=':rtype: @@CNQ32@@', inline='``@@CAN36@@`` **@@CAN37@@**'),
+                             ivar=':ivar iv: d @@CAN26@@', cvar=':cvar @@CAN27@@: bad name', rtype=':rtype: @@CNQ32@@', inline='``@@CAN36@@`` **@@CAN37@@** `label <http://example.com/@@CAQ70@@>`_ http://example.com/@@CAQ71@@\n\n.. image:: http://example.com/x.png\n   :alt: alt @@CAQ72@@\n\nTarget_ text.\n\n.. _Target: http://example.com/@@CAQ73@@'),
     'google': dict(param='Args:\n        a: pa @@CAN17@@\n        @@CAN19@@ (@@CNQ18@@): unknown param', typ='', badparam='',
                    rais='Raises:\n        @@CAN20@@: exc @@CAN35@@', ret='Returns:\n        r @@CAN21@@', see='See Also:\n        @@CAN22@@', unk='Note:\n        @@CAN23@@',
-                   ivar='Attributes:\n        iv: d @@CAN26@@\n        @@CAN27@@: bad name', cvar='', rtype='', inline='``@@CAN36@@`` **@@CAN37@@**'),
+                   ivar='Attributes:\n        iv: d @@CAN26@@\n        @@CAN27@@: bad name', cvar='', rtype='', inline='``@@CAN36@@`` **@@CAN37@@** `label <http://example.com/@@CAQ70@@>`_ http://example.com/@@CAQ71@@\n\n.. image:: http://example.com/x.png\n   :alt: alt @@CAQ72@@'),
     'numpy': dict(param='Parameters\n    ----------\n    a : @@CNQ18@@\n        pa @@CAN17@@\n    @@CAN19@@\n        unknown param', typ='', badparam='',
                   rais='Raises\n    ------\n    @@CAN20@@\n        exc @@CAN35@@', ret='Returns\n    -------\n    @@CNQ32@@\n        r @@CAN21@@', see='See Also\n    --------\n    @@CAN22@@', unk='Notes\n    -----\n    @@CAN23@@',
-                  ivar='Attributes\n    ----------\n    iv\n        d @@CAN26@@\n    @@CAN27@@\n        bad name', cvar='', rtype='', inline='``@@CAN36@@`` **@@CAN37@@**'),
+                  ivar='Attributes\n    ----------\n    iv\n        d @@CAN26@@\n    @@CAN27@@\n        bad name', cvar='', rtype='', inline='``@@CAN36@@`` **@@CAN37@@** `label <http://example.com/@@CAQ70@@>`_ http://example.com/@@CAQ71@@\n\n.. image:: http://example.com/x.png\n   :alt: alt @@CAQ72@@'),
     'plaintext': dict(param='@param a: pa @@CAN17@@', typ='', badparam='', rais='@@CAN20@@ @@CAN35@@', ret='@@CAN21@@', see='@@CAN22@@', unk='@@CAN23@@', ivar='@@CAN26@@',
                       cvar='@@CAN27@@', rtype='@@CNQ32@@', inline='@@CAN36@@ @@CAN37@@'),
 }
@@ -271,6 +284,7 @@ def _render_pair(res: core.Res, label: str, sources: Dict[str, Tuple[bool, str]]
             for name, (is_pkg, text) in sources.items():
                 text = re.sub(r'@@CAN(\d+)@@', lambda m: _lit(fn(m.group(1))), text)
                 text = re.sub(r'@@CNQ(\d+)@@', lambda m: _lit(fn(m.group(1), True)), text)
+                text = re.sub(r'@@CAQ(\d+)@@', lambda m: _lit((hostile_aq if variant == 'hostile' else control_aq)(m.group(1))), text)
                 parts = name.split('.')
                 if is_pkg:
                     d = src.joinpath(*parts)
@@ -305,7 +319,7 @@ def run_case(case: Dict[str, Any]) -> core.Res:
     if case['part'] == 'D':
         fmt = case['docformat']
         text = DIRECTED.format(**FIELDS[fmt])
-        res.c('canary_positions', len(set(re.findall(r'@@C(?:AN|NQ)(\d+)@@', text))))
+        res.c('canary_positions', len(set(re.findall(r'@@C(?:AN|NQ|AQ)(\d+)@@', text))))
         res.setadd('docformats', fmt)
         sources = {'canpkg': (True, '"""Package @@CAN50@@."""\nfrom .mod import C as Moved\n__all__ = ["Moved"]\n'), 'canpkg.mod': (False, text)}
         _render_pair(res, f'directed/{fmt}/{case["theme"]}', sources, [f'--docformat={fmt}', f'--theme={case["theme"]}', '--process-types'])
